@@ -190,7 +190,9 @@ def run_case(ctx, case):
         if r[0] != "ok":
             rec.violation("Integrate.lenght raised", case, observed=r[1])
             return
-        want = sum(math.sqrt(sum((float(a) - float(b)) ** 2 for a, b in zip(p0, p1))) for p0, p1 in zip(P[:-1], P[1:]))
+        # the segment on the non-empty span [U[i], U[i+1]) joins P[i-1] and P[i]; a double interior knot is a jump, not a segment
+        want = sum(math.sqrt(sum((float(a) - float(b)) ** 2 for a, b in zip(P[i - 1], P[i])))
+                   for i in range(1, len(P)) if U[i] < U[i + 1])
         l3(rec, "segment-lengths")
         if abs(float(r[1]) - want) > 1e-9 * max(1.0, want):
             rec.violation("Integrate.lenght of a polyline is not the sum of its segment lengths", case, observed=float(r[1]), expected=want)
@@ -205,6 +207,9 @@ def run(ctx):
     for i in range(budget(ctx, 6, 40)):
         reqs = [(rng.choice(list(FAMS)), rng.randint(2, 9)) for _ in range(rng.randint(4, 10))]
         run_case(ctx, ser(dict(kind="order", reqs=reqs)))
+    # corpus: closed rule on float knots where start + (end - start) * 1.0 rounds above the last knot (repaired)
+    run_case(ctx, ser(dict(kind="scalar", U=[F(-5, 3)] * 3 + [F(-41, 30)] * 2 + [F(4, 3)] * 3,
+                           P=[(F(-5, 3),), (F(-6),), (F(0),), (F(-1, 7),), (F(10, 3),)], rep="float", method="closed", nnodes=None)))
     for i in range(budget(ctx, 60, 800)):
         U = rand_kv(rng, pmax=4, nintmax=3)
         p, n, _ = kv_info(U)
@@ -230,6 +235,8 @@ def run(ctx):
     for i in range(budget(ctx, 30, 300)):
         nseg = rng.randint(1, 5)
         ks = sorted(rng.sample(GRID, nseg - 1))
+        if i % 3 == 2:
+            ks = sorted(ks + [k for k in ks if rng.random() < 0.6])      # double interior knots: the polyline jumps there
         U = [F(0), F(0)] + ks + [F(1), F(1)]
-        P = rand_points(rng, nseg + 1, rng.choice([2, 3]), ints=True)
+        P = rand_points(rng, len(ks) + 2, rng.choice([2, 3]), ints=True)
         run_case(ctx, ser(dict(kind="length", U=U, P=P, rep=rng.choice(["fraction", "float"]))))
